@@ -45,6 +45,7 @@ carquet_page_writer_t* carquet_page_writer_create(carquet_physical_type_t type, 
 void carquet_page_writer_destroy(carquet_page_writer_t* w);
 carquet_status_t carquet_page_writer_add_values(carquet_page_writer_t* w, const void* values, int64_t n,
                                                 const int16_t* def_levels, const int16_t* rep_levels);
+void carquet_page_writer_set_statistics(carquet_page_writer_t* w, bool enabled);
 bool carquet_page_writer_get_statistics(const carquet_page_writer_t* w, const uint8_t** mn, const uint8_t** mx,
                                         size_t* size, int64_t* null_count);
 typedef struct carquet_column_index_builder carquet_column_index_builder_t;
@@ -255,7 +256,8 @@ static void sb_exec(hctx* h, void* arg) {
             if (sts[i] == 0) for (long long k = 0; k < o->n; k++) { val_t r; r.p = o->flat + k * vs; r.len = vs; r.null = 0; rows[nrows++] = r; }
         } else {
             carquet_byte_array_t* arr = (carquet_byte_array_t*)h_alloc(sizeof(carquet_byte_array_t) * (size_t)(o->nvals ? o->nvals : 1));
-            for (int k = 0; k < o->nvals; k++) { arr[k].data = o->vals[k].p; arr[k].length = o->vals[k].len; }
+            /* an empty value is a legal non-null value whatever its data pointer: every other one is handed over as { NULL, 0 } */
+            for (int k = 0; k < o->nvals; k++) { arr[k].data = (o->vals[k].len == 0 && ((k + o->nvals) & 1)) ? NULL : o->vals[k].p; arr[k].length = o->vals[k].len; }
             sts[i] = (int)carquet_statistics_add_byte_arrays(b, arr, o->nvals);
             if (sts[i] == 0) for (int k = 0; k < o->nvals; k++) rows[nrows++] = o->vals[k];
             free(arr);
